@@ -379,7 +379,18 @@ def observe(ctx, rng, d, want):
     predict(sc)
     sc.report = rng.choice([None, None, "full", "minimal"])
     sc.cores = rng.choice([1, 1, 1, 2, 3]) if want.get("multicore", True) else 1
-    sc.argv = main_argv(sc, sc.report, sc.cores)
+    # side outputs that see every read before the filters (for pairs they look at R1 only)
+    sc.side = []
+    if rng.random() < want.get("side_p", 0.35):
+        linked = any(a["kind"] == "linked" for a in sc.ads1 + sc.ads2)
+        r = rng.random()
+        if r < 0.6 or linked:
+            sc.side += ["--info-file", "side.info.tsv"]
+        elif r < 0.8:
+            sc.side += ["--rest-file", "side.rest.txt"]
+        else:
+            sc.side += ["--wildcard-file", "side.wild.txt"]
+    sc.argv = main_argv(sc, sc.report, sc.cores, extra=sc.side)
     sc.run = climon.run(d, sc.argv, tag="main", trace=want.get("trace", True), timeout=120)
     sc.case = climon.case_record(sc.argv, d, sc.inputs)
     sc.layout = output_layout(sc)
